@@ -23,6 +23,8 @@ def run(prop, tier):
     jobs.append(dict(src=SRC, ksim=True, args=["dgram", "-p", p, "-d", d, "--", 16, 6, "z"]))
     jobs.append(dict(src=SRC, ksim=True, args=["peergone", "-p", p + 1, "-d", d]))
     jobs.append(dict(src=SRC, ksim=True, args=["halfclose", "-p", p, "-d", d]))
+    for v in ("b50", "n"):       # connect whose handshake stays pending, under every pattern of interruptions of connect / poll
+        jobs.append(dict(src=SRC, ksim=True, args=["pending", "-p", 0, "-d", d + 1, "--", v]))
     acc = mcsched.run_jobs(prop, tier, jobs, extra_props=("SCHED", "RACE", "UAF", "POSIX", "MEM", "KSIM"))
     cov = mcsched.coverage(acc, "client and server threads, each with its own PSocket, over the in-memory socket layer KSIM (8-byte stream buffers, 2-datagram queues, so short writes and EAGAIN arise on their own): "
                                 "all interleavings with <= %d preemptions x all patterns of <= %d deviations (EINTR at connect/accept/send/sendto/recv/recvfrom/poll, spurious EAGAIN, extra-short transfer); "
